@@ -624,18 +624,17 @@ func runC01(c *core.Ctx) {
 					v = core.Strip(v)
 					return v == core.Strip(cv.X) || v == ssa.Value(src)
 				}
-				bounded := false
-				for e := range core.EdgesWhere(fn, func(r core.Rel) bool {
+				// no way to the conversion goes around every edge that bounds the value (path-sensitive: the bound may be
+				// folded into a flag that is tested later)
+				bounding := core.EdgesWhere(fn, func(r core.Rel) bool {
 					if !about(r.X) {
 						return false
 					}
 					ub, ok := r.UpperBoundConst()
 					return ok && constant.Compare(ub, token.LEQ, constant.MakeInt64(math.MaxInt64))
-				}) {
-					if core.EdgeDominates(e, cv.Block()) {
-						bounded = true
-					}
-				}
+				})
+				_, reached := core.Reach(fn, nil, func(x ssa.Instruction) bool { return x == ssa.Instruction(cv) }, bounding, nil)
+				bounded := len(bounding) > 0 && !reached
 				c.Check(bounded, fmt.Sprintf("%s#unsigned-to-signed/%d", core.FuncKey(fn), n), p.Pos(cv.Pos()), "converted only where it was found to fit", "a value read with AsUint() is converted to a signed integer without having been found <= MaxInt64 on this path: 2^63 and above become negative numbers, and the operation that uses the result succeeds with a different value than the node holds")
 			})
 		}
